@@ -37,6 +37,20 @@ PROPS["C01"] = {
     "assumptions": ["WHERE clauses only over NULL-free columns with well-typed operands", "no DML on the catalog tables", "column lists name existing, distinct columns"],
 }
 
+PROPS["C02"] = {
+    "kind": "harness", "test": "TestC02", "level": "fault_enumeration",
+    "tiers": tiers(80, 4, 800, 16),
+    "rule": "rapid-generated cases of 1-4 segments of valid DDL/DML histories (<=22 statements each, 1-9 tables) with a generated flush pattern "
+            "(never / always / random subset / only after DDL), each segment ended by process death (stores abandoned, nothing flushed) or clean shutdown; "
+            "in segment 0 a crash image (copy of data file and log) is taken after EVERY statement and recovered with the real InitStorage; every image and every "
+            "segment end is recovered twice and compared (value sequences, stable never-reused row ids, catalog) with the model at that statement boundary; later segments run on the recovered files. "
+            "Non-trivial: some crash point had both flushed and log-only acknowledged changes (dirty pages present after an earlier flush) and the case contains UPDATE or DELETE; distinct by case JSON.",
+    "technique": "fault injection by enumeration of crash points per generated history (rapid), recovery compared with a reference model",
+    "level_text": "For every generated history all between-statement crash points of the first segment plus every segment end are enumerated and recovered with the real recovery code, under generated flush placements and repeated crash/recover cycles. Exhaustive per history, random over histories.",
+    "level_note": "Crash = process death: every completed write is in the files (mkdb never fsyncs the data file, so this is the strongest model the code could meet). Flush timer replaced by explicit generated flushes (VerifFlush is the timer's tick). Trusted: reference model, image copy.",
+    "assumptions": ["crash = process death, no lost or reordered completed writes", "flush timer ticks only between statements (C13 checks that separately)"],
+}
+
 HOOK_COMMITS = ["7ca683e"]
 
 NOT_APPLICABLE = {}
